@@ -254,7 +254,7 @@ func discoverCase(c *vlib.Cases, pf *profile.Factory, epType string, rounds []ro
 		o.Guard = guarded(func() {
 			o.Err = svc.DiscoverEndpoint(context.Background(), ep) != nil
 		})
-		time.Sleep(15 * time.Millisecond) // async unification settles
+		vlib.WaitUnifyIdle(reg, 15*time.Millisecond, 5*time.Second) // async unification settles
 		ms, _ := reg.GetModelsForEndpoint(context.Background(), ep.URLString)
 		for _, m := range ms {
 			o.Names = append(o.Names, m.Name)
@@ -382,7 +382,7 @@ func discoverRoundCase(c *vlib.Cases, pf *profile.Factory, workers int, classes 
 			o.Guard.Timeout = true
 		}
 		cancel()
-		time.Sleep(30 * time.Millisecond) // async unification settles
+		vlib.WaitUnifyIdle(reg, 30*time.Millisecond, 5*time.Second) // async unification settles
 		for i := 0; i < n; i++ {
 			ms, _ := reg.GetModelsForEndpoint(context.Background(), byName[bes[i].Name].URLString)
 			names := []string{}
